@@ -121,6 +121,12 @@ func (d *Disk) WriteAt(p []byte, off int64) (int, error) {
 	if d.Dead {
 		return 0, errDiskIO
 	}
+	if s := rt.Active(); s != nil && s.AtomicYields && !d.NoYield {
+		// fine-grained runs: the device captures the caller's buffer when the
+		// request is submitted, the transfer takes effect later (a device may do
+		// either; callers must not change a buffer they have handed to a write)
+		p = append([]byte{}, p...)
+	}
 	d.yield("disk." + d.Name + ".WriteAt")
 	if d.Dead {
 		return 0, errDiskIO
